@@ -226,11 +226,11 @@ func main() {
 	defer r.CrashGuard()
 	defer r.Watch()()
 	r.Rule = "exhaustive finite product: (logger level, global level, event level, sampler behaviour) through WithLevel and through each named level method; all 256 level text forms; every exported *Event method (reflection) on a filtered event singly and in ordered pairs; Panic/Fatal filtered and unfiltered (Fatal in re-executed child processes); distinct = distinct (configuration, written?, level seen, sampler calls); non-trivial = the event passed at least one of the two level tests but not necessarily both"
-	r.Assumptions = []string{"event levels -128..6 and Disabled(7), as in the statement", "Fatal is observed through the exit status of a re-executed copy of this binary"}
+	r.Assumptions = []string{"event levels: the statement's 136 (-128..6 and Disabled) and, beyond it, the custom levels 8..127", "Fatal is observed through the exit status of a re-executed copy of this binary"}
 
 	w := &recLW{}
 	evLevels := []zerolog.Level{}
-	for l := -128; l <= 7; l++ {
+	for l := -128; l <= 127; l++ { // the statement's 136 levels and the custom levels 8..127 above them
 		evLevels = append(evLevels, zerolog.Level(l))
 	}
 	type sm struct {
